@@ -4,6 +4,7 @@ import (
 	"fmt"
 	"reflect"
 	"strings"
+	"time"
 
 	"github.com/fluffle/goirc/client"
 
@@ -33,6 +34,7 @@ func init() {
 			for i := 0; i < 4; i++ {
 				bs = append(bs, Batch{Name: fmt.Sprintf("wire-%d", i), Args: map[string]string{"mode": "wire", "part": fmt.Sprint(i), "parts": "4"}, Race: true, Procs: 4})
 			}
+			bs = append(bs, Batch{Name: "wire-quiet", Args: map[string]string{"mode": "wire", "quiet": "1", "part": "0", "parts": "1"}, Race: true, Procs: 2})
 			return bs
 		},
 		Run: runC01,
@@ -169,11 +171,21 @@ func runC01Wire(c *Ctx) {
 	total := c.Pick(12_000, 400_000)
 	sessLen := 500
 	part, parts := c.ArgInt("part", 0), c.ArgInt("parts", 1)
+	// "quiet" sessions: client pings every 20 ms, and each message arrives in two segments separated by a
+	// silence longer than that (a client that guards its reads with a keep-alive deadline must still reassemble it)
+	quiet := c.Arg("quiet", "") == "1"
+	if quiet {
+		total, sessLen = c.Pick(60, 600), 30
+	}
 	for base := 0; base < total; base += sessLen {
 		if (base/sessLen)%parts != part {
 			continue
 		}
-		s := NewSession(SessionOpts{Flood: true})
+		so := SessionOpts{Flood: true}
+		if quiet {
+			so.PingFreq = 20 * time.Millisecond
+		}
+		s := NewSession(so)
 		mc, err := s.Connect()
 		if err != nil {
 			c.R.Inconcl("connect failed: " + err.Error())
@@ -218,17 +230,26 @@ func runC01Wire(c *Ctx) {
 			s.mu.Unlock()
 			// choose a segmentation
 			b := []byte(e.Raw + "\r\n")
-			switch r.Intn(3) {
-			case 0:
-				mc.SendBytes(b)
-			case 1:
-				mc.SendSegmented(b, []int{1 + r.Intn(len(b))})
-			default:
-				var cuts []int
-				for k := 1; k < len(b); k += 1 + r.Intn(7) {
-					cuts = append(cuts, k)
+			if quiet {
+				cut := 1 + r.Intn(len(b)-1)
+				time.Sleep(25 * time.Millisecond) // the link has been silent for longer than PingFreq
+				mc.SendBytes(b[:cut])
+				time.Sleep(30 * time.Millisecond)
+				mc.SendBytes(b[cut:])
+				c.R.Count("wire_messages_across_a_silence", 1)
+			} else {
+				switch r.Intn(3) {
+				case 0:
+					mc.SendBytes(b)
+				case 1:
+					mc.SendSegmented(b, []int{1 + r.Intn(len(b))})
+				default:
+					var cuts []int
+					for k := 1; k < len(b); k += 1 + r.Intn(7) {
+						cuts = append(cuts, k)
+					}
+					mc.SendSegmented(b, cuts)
 				}
-				mc.SendSegmented(b, cuts)
 			}
 			if !s.FgMarker(mc) {
 				c.R.Inconcl(fmt.Sprintf("%s: marker not reached after %q", Case("wire", idx), e.Raw))
